@@ -761,7 +761,10 @@ func (t *Tree) Compile(file string, args []string, out io.Writer) (err error) {
 				lower := []rune(element.String())[0]
 				element = element.Next()
 				upper := []rune(element.String())[0]
-				s.AddRange(lower, upper)
+				/* an inverted range matches nothing */
+				if lower <= upper {
+					s.AddRange(lower, upper)
+				}
 			case TypeAlternate:
 				consumes = true
 				properties := make([]struct {
@@ -796,6 +799,13 @@ func (t *Tree) Compile(file string, args []string, out io.Writer) (err error) {
 							properties[ai].intersects = true
 							break
 						}
+					}
+				}
+				/* an alternative that can't start with any character (an inverted range) is never selected by a switch */
+				for i := range properties {
+					if properties[i].s.Len() == 0 && !properties[i].intersects {
+						intersections++
+						properties[i].intersects = true
 					}
 				}
 				if intersections >= len(properties) {
